@@ -107,6 +107,7 @@ class Harness:
         self.mon = privacy.Monitor()
         self.mods = {}
         self.installed = False
+        self.on_model = None   # optional observer of every model returned by FactoredInference.estimate
 
     def install(self):
         if self.installed:
@@ -128,9 +129,12 @@ class Harness:
             saved = eng.iters
             eng.iters = min(eng.iters, harness.cap)
             try:
-                return orig(eng, *a, **k)
+                model = orig(eng, *a, **k)
             finally:
                 eng.iters = saved
+            if harness.on_model is not None:
+                harness.on_model(eng, model)
+            return model
 
         FI.estimate = estimate
         self._restore = (FI, orig)
